@@ -901,6 +901,7 @@ package badger
 //@   props C16
 //@   light
 //@   assert[txn-entries-after-marker] before call fn#1 : lastCommit == 0 && arg1 == vptrs[i]
+//@   assert[marker-of-this-txn] before call fn#1 : ret1(ParseUint#1) == nil && ret0(ParseUint#1) == atloop(lastCommit)
 //@   assert[standalone-outside-txn] before call fn#2 : lastCommit == 0 && validEndOffset == read.recordOffset
 //@   assert[pointer-of-record] before call fn#2 : arg1.Fid == lf.fid && arg1.Offset == e.offset && arg1.Len == uint32(e.hlen + len(e.Key) + len(e.Value) + 4)
 //@   assert[records-in-order] before call Entry : arg0 == read && arg1 == reader
